@@ -236,5 +236,13 @@ func ForEachNameField(rr dns.RR, f func(get func() string, set func(string))) {
 			fv := v.Field(i)
 			f(func() string { return fv.String() }, func(s string) { fv.SetString(s) })
 		}
+		// lists of names (HIP rendezvous servers): every element
+		if tag == "domain-name" && t.Field(i).Type.Kind() == reflect.Slice && t.Field(i).Type.Elem().Kind() == reflect.String {
+			fv := v.Field(i)
+			for j := 0; j < fv.Len(); j++ {
+				e := fv.Index(j)
+				f(func() string { return e.String() }, func(s string) { e.SetString(s) })
+			}
+		}
 	}
 }
